@@ -6,6 +6,7 @@ set -e
 mkdir -p harness/bin replays evidence lean/YangVerif/Gen
 cp /repo/go.sum harness/go.sum 2>/dev/null || true
 (cd harness && go build -tags verif -o bin/vgen ./cmd/vgen && ./bin/vgen)
+(cd effects && go build -o ../harness/bin/vfx ./cmd/vfx && ../harness/bin/vfx -lean ../lean/YangVerif/Gen/EffectTable.lean -report ../harness/bin/effects.json)
 (cd lean && lake build YangVerif driver)
 (cd harness && go build -tags verif -o bin/vcheck ./cmd/vcheck)
 echo setup-ok
